@@ -33,7 +33,7 @@ def run_demo():
         os.unlink(os.path.join(WT, 'tests', 'demo_test.rs'))
         ok = 'test result: ok' in out and 'FAILED' not in out
         return ok, out[-1500:]
-    rc, out = sh('bash seed_demo/demo.sh 2>&1 | tail -40; exit ${PIPESTATUS[0]}', WT)
+    rc, out = sh("bash -c 'bash seed_demo/demo.sh > /tmp/seed/demo.out 2>&1; rc=$?; tail -40 /tmp/seed/demo.out; exit $rc'", WT)
     return rc == 0, out[-1500:]
 
 
